@@ -641,6 +641,9 @@ def _fastmath(f, opts):
     return w
 
 
+PRANGE_ANY_ORDER = [False]
+
+
 def make_numba():
     m = types.ModuleType("numba")
 
@@ -655,7 +658,21 @@ def make_numba():
             return deco(a[0])
         return deco
     m.jit = m.njit = jit
-    m.prange = range
+    def prange(*a):
+        """numba.prange: by default the iterations run in order; with PRANGE_ANY_ORDER[0] set (and at most 4 iterations) the ORDER
+        in which they run is chosen by the solver - every permutation is a path (iterations of a parallel loop may complete in any
+        order; two iterations never interleave in this model)"""
+        idx = list(range(*[int(v) for v in a]))
+        ctx = core.cur()
+        if not PRANGE_ANY_ORDER[0] or ctx is None or not (2 <= len(idx) <= 4):
+            return iter(idx)
+        order, rest = [], list(idx)
+        while len(rest) > 1:
+            v = core.Int(ctx.fresh_name("prange_pick"))
+            ctx.assume(core.s_and(v >= 0, v < len(rest)))
+            order.append(rest.pop(int(v)))
+        return iter(order + rest)
+    m.prange = prange
     state = {"threads": 1}
     m.get_num_threads = lambda: state["threads"]
     m.set_num_threads = lambda n: state.__setitem__("threads", n)
